@@ -660,7 +660,8 @@ def json_extract_cased_as_varchar(expression: exp.Expression) -> exp.Expression:
         and (gp := expression.this)
         and isinstance(gp, exp.JSONExtract)
         and (path := gp.expression)
-        and isinstance(path, exp.JSONPath)
+        # bracket access (v[0], v['k']) carries its path as a string literal, see indices_to_json_extract
+        and isinstance(path, (exp.JSONPath, exp.Literal))
     ):
         expression.set("this", exp.JSONExtractScalar(this=gp.this, expression=path))
 
@@ -678,7 +679,8 @@ def json_extract_cast_as_varchar(expression: exp.Expression) -> exp.Expression:
         and (je := expression.this)
         and isinstance(je, exp.JSONExtract)
         and (path := je.expression)
-        and isinstance(path, exp.JSONPath)
+        # bracket access (v[0], v['k']) carries its path as a string literal, see indices_to_json_extract
+        and isinstance(path, (exp.JSONPath, exp.Literal))
     ):
         je.replace(exp.JSONExtractScalar(this=je.this, expression=path))
     return expression
